@@ -16,7 +16,7 @@
 
   * `typed_eq_tree_work_gen`: the go.work counterpart (`typed_eq_tree_work_from_parse`, `Edit.InvW`, over `RepW`), for
     sessions with valid arguments in every state (`Edit.RunValidW`, SetUse included; `runValidW_of_all`: in particular for
-    the sessions of `typed_eq_tree_work_from_parse`).  (The model has no totality theorem for go.work sessions, so there is
+    the sessions of `typed_eq_tree_work_from_parse`).  (The model has no totality theorem for go.work sessions at the time of writing (now: Tie/FnEditC15Work.lean), so there is
     no go.work `nilDeref_unreachable` to transport.)
 
   Hypotheses beyond those of the model theorems: fuel only — `FuelOK fuel (Edit.load f) ops` (the fuel dominates the explicit
